@@ -648,8 +648,11 @@ class DocumentationAggregator(CMakeListener):
                 # Clear the var since we've processed the function/macro def we need
                 self.documented_awaiting_function_def = None
 
-                # Allows scanning for cmake_parse_arguments() inside other types of definitions
-                self.definition_command_stack.append(DefinitionCommand(None, False))
+                # Allows scanning for cmake_parse_arguments() inside other types of definitions,
+                # a definition with a doccomment of its own already has its entry on the stack
+                # (a second one would never be popped and would hide the first from its own body)
+                if ctx not in self.consumed:
+                    self.definition_command_stack.append(DefinitionCommand(None, False))
             elif command == "endfunction" or command == "endmacro":
                 self.definition_command_stack.pop()
             elif command != "set" and self.has_processor(command) and ctx not in self.consumed:
